@@ -287,6 +287,6 @@ theorem can_start_set_match : Generated.LexTables.canStartSet = canStartTable :=
 theorem can_start_table_is_model :
     ∀ n ∈ canStartTable, canStartSignedNumberAfter (Char.ofNat n) = true := by decide
 
-theorem tok_type_numbering : tokTypeNames.length = 38 ∧ TokType.tEnd.toNat = 37 ∧ modeNames.length = 15 := by decide
+theorem tok_type_numbering : tokTypeNames.length = 38 ∧ TokType.tEnd.toNat = 37 ∧ modeNames.length = 16 := by decide
 
 end ZygoVerif.Props.C13
